@@ -23,6 +23,38 @@ REGISTRY = {
         "require": {"mut:noncanonical:accepted": 20, "mut:wrapdepth:accepted": 5, "mut:wrapdepth:rejected": 5,
                     "mut:lengthfield:rejected": 20, "mut:hostile:rejected": 20},
     },
+    "C03": {
+        "level": "exploration",
+        "claim": "Generated (stream, function, W, session, system bytes, body) tuples through every constructor, re-stamp and derive path plus all nine control factories with every status/reason byte, compared byte for byte with independent E37/E5 reference encoders and round-tripped through the three decode entry points; on a real Selected connection (both roles) the bytes a raw peer reads for every send entry point are compared with the message's serialization.",
+        "trust": "Trusts ref/e37 and ref/e5 (written from the standards) and the in-memory network handed to WithDialer/WithListener.",
+        "technique": "property-based testing (rapid): differential vs reference encoders, round trip, wire == ToBytes on scripted connections in testing/synctest",
+        "tests": [
+            {"name": "TestC03Frames", "shards": 8, "shards_thorough": 16},
+            {"name": "TestC03Wire", "shards": 4, "shards_thorough": 16},
+        ],
+        "require": {"c03:control:0": 274, "c03:control:1": 274, "c03:control:2": 185, "c03:control:3": 184, "c03:control:4": 142, "c03:control:5": 127, "c03:control:6": 139, "c03:control:7": 130, "c03:control:8": 124, "c03:control:9": 164, "c03:data": 2724, "c03:rejected": 3029, "c03:restamps:1": 747, "c03:restamps:2": 742, "c03:restamps:3": 581, "c03:restamps:4": 652, "c03:wire:Forward": 1327, "c03:wire:ForwardAsync": 1313, "c03:wire:Reply": 1007, "c03:wire:Send": 987, "c03:wire:SendAsync": 991, "c03:wire:SendSECS2": 816, "c03:wire:active": 3208, "c03:wire:passive": 3235},
+    },
+    "C04": {
+        "level": "exploration",
+        "claim": "Mutated and random byte strings through the three frame-decode entry points against an independent well-formedness predicate (incl. same body error for every holder, copy and goroutine); generated frame streams under arbitrary segmentation and inter-segment delay classes fed by a raw peer to real connections in virtual time: segmentation invariance against the responder model, idle gaps survive, a stall inside a frame drops the link exactly T8 after its last byte, an out-of-range length drops it at once without allocating the claimed size; native fuzzing of the decode entry points in the thorough tier.",
+        "trust": "Trusts ref/e37.ParseWhole and ref/fsm.Responder; virtual time (testing/synctest) makes T8 exact; the allocation meter is process-wide TotalAlloc with a 4 MiB threshold against >= 16 MiB claimed.",
+        "technique": "property-based testing (rapid): acceptance-predicate differential + metamorphic segmentation invariance on scripted connections in testing/synctest; native go fuzzing (thorough)",
+        "tests": [
+            {"name": "TestC04Decode", "shards": 8, "shards_thorough": 16},
+            {"name": "TestC04Stream", "shards": 8, "shards_thorough": 16},
+        ],
+        "require": {"c04:accepted": 1649, "c04:accepted-bad-body": 543, "c04:mut:extend": 712, "c04:mut:flip": 710, "c04:mut:len": 1308, "c04:mut:none": 1335, "c04:mut:ptype": 902, "c04:mut:random": 902, "c04:mut:stype": 905, "c04:mut:truncate": 724, "c04:rejected": 5307, "c04s:bad-length-huge": 385, "c04s:bad-length-small": 326, "c04s:boundaries": 959, "c04s:delay:idle-long": 502, "c04s:delay:none": 3645, "c04s:delay:short": 2421, "c04s:delay:stall": 1369, "c04s:drip-head": 860, "c04s:few": 1089, "c04s:many": 1091, "c04s:role:active": 1983, "c04s:role:passive": 2016},
+    },
+    "C07": {
+        "level": "exploration",
+        "claim": "Real connections (both roles) driven into each way of being not-selected (never opened, closed, connecting, connected-not-selected, deselected, between reconnect generations, select rejected); every data-sending entry point is checked for error identity, exactly one counted drop and zero data bytes at the raw peer; inbound data while not selected must be answered by Reject reason 4 echoing session id and system bytes with no handler call and the link up; data pipelined behind the establishing Select under drawn segmentations must be delivered in order.",
+        "trust": "Trusts the in-memory network and virtual-time quiescence (synctest.Wait) as the point at which 'nothing was written' is decided.",
+        "technique": "property-based testing (rapid) over scripted connection histories in testing/synctest with byte-level peer observation",
+        "tests": [
+            {"name": "TestC07Gate", "shards": 8, "shards_thorough": 16},
+        ],
+        "require": {"c07:between-generations": 568, "c07:closed": 1029, "c07:connected-not-selected": 1502, "c07:connecting": 364, "c07:deselected": 582, "c07:never-opened": 1048, "c07:pipeline:cuts": 551, "c07:pipeline:cuts-settle": 487, "c07:pipeline:drip": 441, "c07:pipeline:one-write": 544, "c07:role:active": 3739, "c07:role:passive": 3760, "c07:select-rejected": 380},
+    },
     "C05": {
         "level": "exploration",
         "claim": "Rapid state machine over the real supervisor with the schedule owned by the harness (commits placed inside the supervisor's load->store window, stale T7 / stale generation events, commits after Close, undrained notifications) checked after every action against a reference E37 model plus the notification chain / no-self / final-state invariants; end-to-end peer scripts (pipelined Select+Deselect, T7, separate, drops, connect racing Close) on real connections inside a virtual-time bubble with State() read at synchronisation points.",
